@@ -9,6 +9,21 @@ TB = ("rustc (nightly 1.97) parsing, macro expansion, type checking and MIR cons
       "hand-written oracle tables under spec/ (each entry carries its reason)")
 
 CLAIMS = {
+    "C07": {
+        "technique": "static analysis: per-renderer shape and table rules (format strings, match arms, mask-bit name tables) from the syntax tree, pinned snapshot, spec generator table",
+        "text": "Line format holes and order; the module walk visits header, every global section and every function part in assembly order with nothing skipped; each of the 64 operand variants is "
+                "rendered by the renderer the statement prescribes (all 15 masks through the generated specification-name tables); the mask name tables are complete, in bit order and equal the "
+                "flag declarations and the snapshot; typed literal table; extended-instruction naming; generator table. Global injectivity of the text is decided only through these necessary conditions.",
+        "design_ref": "DESIGN.md 3/C07", "note": TB + "; std formatting of integers/floats/strings",
+    },
+    "C18": {
+        "technique": "static analysis: positional-mapping rule over every generated lift arm joined with spirv::Op, the grammar table, the sr declarations and the Builder; path conditions of the walk's append sites",
+        "text": "Each of the 758+ lift arms: numeric opcode, variant name, fields written in declaration order, n-th field consuming the n-th grammar operand with matching variant and optionality, "
+                "names consistent with the Builder; LiftContext::convert's append/push sites with their exact path conditions, sources of version/capabilities/memory model/function fields. "
+                "Success of lifting (it panics by design on unsupported input) and equality of lifted values are not decided.",
+        "design_ref": "DESIGN.md 3/C18", "note": TB,
+    },
+
     "C01": {
         "technique": "static analysis: composition of structural preconditions - codec table agreement, loader abstract interpretation, append-only and cast census from MIR, traversal/assembly order",
         "text": "Decides the structural preconditions of the round trip on the current source: codec pairing (C02's rules), every accepted instruction moved into exactly one container and the "
